@@ -860,9 +860,24 @@ func main() {
 	} else {
 		master := rng.New(*seed)
 		// the probes for the excluded input class (pending peer on a store without a peer)
-		emitRI(foreignPendingProbe(0))
-		emitRI(foreignPendingProbe(1))
-		emitRI(sharedStoreProbe())
+		// inputs outside the domain of the property (malformed peer lists): compared with the model like the rest
+		// of the malformed stream, never judged by the monitor; what the real code did is recorded as a note
+		for v := 0; v < 2; v++ {
+			c := foreignPendingProbe(v)
+			if strings.HasPrefix(c.Obs[3], "RoNums [0; 0; 0; 1;") {
+				R.Count("outside-domain:stale-pending-entry-observed")
+				R.Notes = append(R.Notes, "outside the domain (pending peer on a store where the region has no peer): after the region left the cache GetStorePendingPeerCount(4) is still 1")
+			}
+			emitRI(c)
+		}
+		{
+			c := sharedStoreProbe()
+			if strings.HasSuffix(c.Obs[3], "0; 50; 0]") {
+				R.Count("outside-domain:follower-size-counted-twice-observed")
+				R.Notes = append(R.Notes, "outside the domain (two peers of one region on one store): size-only update 10 -> 30 leaves GetStoreFollowerRegionSize(2) = 50")
+			}
+			emitRI(c)
+		}
 		degrees := []int{2, 3, 4, 64}
 		nbt := *n / 2
 		for k := 0; k < nbt; k++ {
